@@ -163,7 +163,7 @@ static uint64_t table_value (const VOp *op, int k, int idx)
 }
 
 /* ---- filling ---- */
-typedef struct { int mode; const VOp *op; int bi, bj, len0, len1; VChoices *c; uint64_t seed; int src_of_var[PS_MAXVARS]; } FillPlan;
+typedef struct { int mode; const VOp *op; int bi, bj, len0, len1; VChoices *c; uint64_t seed; int src_of_var[PS_MAXVARS]; int scalar_partner; } FillPlan;
 
 static uint64_t rand_lane (int lsize, uint64_t h)
 {
@@ -193,7 +193,8 @@ static void fill_arena (Arena *a, const ProgSpec *ps, const RunCfg *rc, const Fi
             /* element e of operand 0 walks the block's first index, of operand 1 the second; lanes of an x2 element take
                neighbouring pairs so that both lanes see different operands */
             long q = e * lanes + l;
-            int idx = k == 0 ? fp->bi * BLK + (int) ((q / BLK) % BLK) : fp->bj * BLK + (int) (q % BLK);
+            int idx = fp->scalar_partner ? (k == 0 ? fp->bi : fp->bj) * BLK + (int) (q % BLK)      /* the other operand is a scalar: walk the block */
+                : k == 0 ? fp->bi * BLK + (int) ((q / BLK) % BLK) : fp->bj * BLK + (int) (q % BLK);
             x |= (table_value (fp->op, k, idx) & (fp->op->ssz[k] == 8 ? ~0ULL : ((1ULL << (8 * fp->op->ssz[k])) - 1))) << (8 * l * fp->op->ssz[k]);
           }
         } else {
@@ -245,7 +246,7 @@ void vprop_case (VChoices *c, VResult *r)
   CgUnit u;
   Arena pristine;
   const char *scratch = v_arg ("scratch", "/verif/_work/scratch");
-  int enumerated = vc_pick (c, 2) == 1, i, have_c, k;
+  int enumerated = vc_pick (c, 2) == 1, i, have_c, k = 0, nrounds, round, round_var, round_k;
   uint64_t h;
 
   memset (&fp, 0, sizeof fp);
@@ -303,16 +304,22 @@ void vprop_case (VChoices *c, VResult *r)
   if (ps.nins == 0) { r->verdict = V_DISCARD; return; }
   if (ps.const_two_lanes && v_excluded ("const-two-lane-sizes")) { r->excluded++; r->verdict = V_DISCARD; return; }
 
-  /* reference */
-  if (arena_build (&pristine, &ps, &rc, 0)) { r->verdict = V_DISCARD; return; }
-  fill_arena (&pristine, &ps, &rc, &fp);
-  v_stage (r, "reference");
-  pe = ps_build (&ps);       /* ps_build fills orcvar: needed before anything else */
-  if (refprog_run (&ps, &rc, &pristine, &ref)) {
-    v_desc (r, "# reference does not model this program: %s\n", ref.why);
-    r->verdict = V_DISCARD; arena_free (&pristine); orc_program_free (pe); return;
+  /* a scalar PARAMETER operand of an enumerated case takes every value of its block in turn (the programs are compiled once);
+     a scalar constant is baked into the code and keeps the one value chosen above */
+  nrounds = 1; round_var = -1; round_k = 0;
+  if (enumerated) {
+    int j;
+    for (j = 1; j >= 0; j--) if (fp.op->ssz[j] && ps.vars[ps.ins[0].s[j]].kind == VK_PARAM) { round_var = ps.ins[0].s[j]; round_k = j; }
+    for (j = 0; j < 2; j++) if (fp.op->ssz[j] && (ps.vars[ps.ins[0].s[j]].kind == VK_PARAM || ps.vars[ps.ins[0].s[j]].kind == VK_CONST)) fp.scalar_partner = 1;
+    if (fp.scalar_partner) { rc.n = BLK / (ps.has_x ? 2 : 1); if (ps.is2d) { rc.m = 4; rc.n = (rc.n + 3) / 4; } }
+    if (round_var >= 0) {
+      int len = round_k ? fp.len1 : fp.len0, base = (round_k ? fp.bj : fp.bi) * BLK;
+      nrounds = len - base < BLK ? len - base : BLK;
+      if (nrounds < 1) nrounds = 1;
+      v_desc (r, "# the parameter operand takes the %d values of its block in turn\n", nrounds);
+    }
   }
-  arena_free (&pristine);
+  pe = ps_build (&ps);       /* ps_build fills orcvar: needed before anything else */
 
   /* paths */
   v_stage (r, "@notmine: compile");
@@ -321,6 +328,19 @@ void vprop_case (VChoices *c, VResult *r)
   ps_ = ps_build (&ps); rs = orc_program_compile_full (ps_, orc_target_get_by_name ("sse"), orc_target_get_default_flags (orc_target_get_by_name ("sse")));
   pc = ps_build (&ps);
   have_c = cg_make (pc, &ps, CG_BARE, "-O2", scratch, &u) == 0;
+  for (round = 0; round < nrounds && r->verdict != V_FAIL; round++) {
+  if (round_var >= 0) rc.pval[round_var] = table_value (fp.op, round_k, (round_k ? fp.bj : fp.bi) * BLK + round);
+  /* reference */
+  if (arena_build (&pristine, &ps, &rc, 0)) break;
+  fill_arena (&pristine, &ps, &rc, &fp);
+  v_stage (r, "reference");
+  if (refprog_run (&ps, &rc, &pristine, &ref)) {
+    v_desc (r, "# reference does not model this program: %s\n", ref.why);
+    arena_free (&pristine); refprog_free (&ref, &ps);
+    if (round == 0) r->verdict = V_DISCARD;
+    break;
+  }
+  arena_free (&pristine);
   v_stage (r, "paths");
   k = 0;
   if (!run_path ("emulation", NULL, pe, &ps, &rc, &fp, &ref, r, 1, NULL)) k++;
@@ -348,13 +368,15 @@ void vprop_case (VChoices *c, VResult *r)
   if (ref.n_threshold) r->classes |= 1u << 12;
   if (ps.is2d) r->classes |= 1u << 13;
   for (i = 0; i < ps.nvars; i++) if ((ps.vars[i].kind == VK_SRC || ps.vars[i].kind == VK_DEST) && rc.a[i].misalign) r->classes |= 1u << 14;
-  r->sub_evals = (uint64_t) ref.n_elems * (uint64_t) k;
-  r->sub_nontrivial = (uint64_t) ref.n_special * (uint64_t) k;
-  r->nontrivial = ref.n_special > 0 && k >= 2;
+  r->sub_evals += (uint64_t) ref.n_elems * (uint64_t) k;
+  r->sub_nontrivial += (uint64_t) ref.n_special * (uint64_t) k;
+  if (ref.n_special > 0 && k >= 2) r->nontrivial = 1;
+  if (r->verdict == V_FAIL && round_var >= 0) v_desc (r, "# failing round %d: parameter = 0x%llx\n", round, (unsigned long long) rc.pval[round_var]);
+  refprog_free (&ref, &ps);
+  }
   h = ps_hash (&ps) ^ rc_hash (&rc, &ps) ^ ((uint64_t) fp.bi << 20) ^ ((uint64_t) fp.bj << 8) ^ fp.seed;
   r->hash = h;
   v_stage (r, "cleanup");
-  refprog_free (&ref, &ps);
   if (have_c) cg_close (&u);
   orc_program_free (pe); orc_program_free (pa); orc_program_free (ps_); orc_program_free (pc);
 }
